@@ -58,11 +58,13 @@ public class Num {
     for (int i = 0; i < n; i++) { double e = d(t.elems[i]) - m; v += e * e; }
     return s(v / n);
   }
-  /* Python's round(x, n): the exact binary value rounded half-even to n decimals */
+  /* numpy's round(x, n) - the rounding of the arithmetic the rates are computed in (numpy.float64.__round__): rint(x * 10^n) / 10^n, rint half-even.
+     It differs from Python's round (the exact binary value rounded half-even) where x * 10^n is k + 0.5 only after the multiplication: 0.65 -> 0.6, not 0.7 */
   public static Value NRound(Value a, Value n) {
     double x = d(a);
     if (Double.isNaN(x) || Double.isInfinite(x)) return s(x);
-    return s(new java.math.BigDecimal(x).setScale(((IntValue) n).val, java.math.RoundingMode.HALF_EVEN).doubleValue());
+    double p = Math.pow(10.0, ((IntValue) n).val);
+    return s(Math.rint(x * p) / p);
   }
   public static Value NIsNaN(Value a) { return Double.isNaN(d(a)) ? BoolValue.ValTrue : BoolValue.ValFalse; }
   /* -1 lt, 0 bit-identical, 1 gt, 2 ambiguous (within 1e-9 relative), 3 unordered (NaN) */
